@@ -971,6 +971,14 @@ func checkPrioStop(vd *Verdict, v *prioView) {
 		return
 	}
 
+	// the stop must have had room to take effect before the run's horizon
+	for _, r := range v.res.Hist {
+		if r.Seq == at && v.res.HorizonHit && int64(sc.Horizon)-r.T < 1000*max(1, sc.Unit) {
+			vd.probe("stop-too-close-to-the-horizon-to-judge")
+			return
+		}
+	}
+
 	inflight, _ := v.inflightAt(at)
 
 	openInput := false
